@@ -179,12 +179,38 @@ fn ftyp_case<W: Write>(out: &mut W, bytes: &[u8], typed: bool) {
     writeln!(out, "C16 kind=ftyp typed={} bytes={} {r}", typed as u8, hex(bytes)).unwrap();
 }
 
+/// a typed box payload through the derived `ParseBox::parse` itself (not through `Mp4Box` / `BoxData`, which check
+/// for left-over bytes a second time): parse the whole payload, serialise the value
+fn value_case<W: Write>(out: &mut W, ty: &str, bytes: &[u8]) {
+    use mp4san::parse::{Co64Box, FtypBox, ParseBox, ParsedBox, StcoBox};
+    fn go<T: ParseBox + ParsedBox>(bytes: &[u8]) -> String {
+        let mut buf = BytesMut::from(bytes);
+        match T::parse(&mut buf) {
+            Err(e) => format!("res=err:{}", parse_kind(e.get_ref())),
+            Ok(v) => {
+                let mut put = Vec::new();
+                v.put_buf(&mut put);
+                format!("res=ok rest={} put={} elen={}", buf.len(), hex(&put), v.encoded_len())
+            }
+        }
+    }
+    let r = crate::quiet(AssertUnwindSafe(|| match ty {
+        "stco" => go::<StcoBox>(bytes),
+        "co64" => go::<Co64Box>(bytes),
+        "ftyp" => go::<FtypBox>(bytes),
+        other => panic!("unknown value type {other}"),
+    }))
+    .unwrap_or("res=panic".into());
+    writeln!(out, "C16 kind=value ty={ty} bytes={} {r}", hex(bytes)).unwrap();
+}
+
 pub fn replay<W: Write>(line: &str, out: &mut W) {
     let get = |k: &str| line.split(' ').find_map(|t| t.strip_prefix(&format!("{k}=")).map(|s| s.to_string()));
     match get("kind").as_deref() {
         Some("hdr") => hdr_case(out, &unhex(&get("bytes").unwrap())),
         Some("ctor") => ctor_case(out, &get("ty").unwrap(), get("n").unwrap().parse().unwrap(), get("u32").as_deref() == Some("1")),
         Some("tree") => tree_case(out, &unhex(&get("bytes").unwrap()), &get("ops").unwrap()),
+        Some("value") => value_case(out, &get("ty").unwrap(), &unhex(&get("bytes").unwrap())),
         Some("ftyp") => ftyp_case(out, &unhex(&get("bytes").unwrap()), get("typed").as_deref() == Some("1")),
         _ => panic!("bad replay line"),
     }
@@ -244,6 +270,43 @@ pub fn run<W: Write>(opts: &Opts, out: &mut W) {
         for _ in 0..n / 20 {
             ctor_case(out, ty, rng.next(), false);
             ctor_case(out, ty, rng.next() as u32 as u64, true);
+        }
+    }
+    // typed payloads through the derived parser: entry counts below / at / above what the payload holds, version and
+    // flags bytes, ragged tails
+    for i in 0..(n / 3) {
+        let mut r = rng.fork(0x7000 + i);
+        let co64 = r.chance(1, 2);
+        let w = if co64 { 8 } else { 4 };
+        let held = r.below(5);
+        let mut p = vec![0u8; 4];
+        let declared = match r.below(6) {
+            0 => held.saturating_sub(1),
+            1 => held + 1,
+            2 => r.next() as u32 as u64,
+            _ => held,
+        };
+        p.extend_from_slice(&(declared as u32).to_be_bytes());
+        p.extend(r.bytes((held * w) as usize));
+        match r.below(8) {
+            0 => {
+                let k = 1 + r.below(w) as usize;
+                p.extend(r.bytes(k)) // a ragged tail
+            }
+            1 => {
+                let k = r.below(4) as usize;
+                p[k] = 1 + r.below(255) as u8 // version / flags
+            }
+            2 => {
+                let k = r.below(p.len() as u64 + 1) as usize;
+                p.truncate(k)
+            }
+            _ => {}
+        }
+        value_case(out, if co64 { "co64" } else { "stco" }, &p);
+        if i % 4 == 0 {
+            let plen = r.below(30) as usize;
+            value_case(out, "ftyp", &r.bytes(plen));
         }
     }
     // trees: random rich moov boxes x accessor-call sequences
